@@ -2,8 +2,12 @@ package props
 
 import (
 	"context"
+	"encoding/json"
 	"fmt"
 	"math/rand"
+	"net/http"
+	"net/http/httptest"
+	"path"
 	"strings"
 	"sync"
 	"sync/atomic"
@@ -48,6 +52,7 @@ type c06Neg struct {
 }
 
 func runC06(c *vf.Ctx) {
+	c06HTTPSource(c)
 	const sub = "history"
 	if !c.Active(sub) {
 		return
@@ -697,4 +702,136 @@ func recStr(pi *model.ProviderInfo) string {
 		return "<nil>"
 	}
 	return fmt.Sprintf("v%d[%s]", pi.Lag, pi.LastError)
+}
+
+// c06HTTPSource: the same convergence rule with the library's own HTTP source reading JSON listings from a server
+// whose answers change between refreshes (records advance, regress, disappear, are listed in another order). What
+// the cache handed out earlier must also stay what it was: records are published as immutable.
+func c06HTTPSource(c *vf.Ctx) {
+	const sub = "http-source"
+	if !c.Active(sub) {
+		return
+	}
+	var curAll atomic.Pointer[[]byte]
+	var curOne atomic.Pointer[map[string][]byte]
+	srv := httptest.NewServer(http.HandlerFunc(func(w http.ResponseWriter, req *http.Request) {
+		w.Header().Set("Content-Type", "application/json")
+		if strings.HasSuffix(req.URL.Path, "/providers") {
+			if b := curAll.Load(); b != nil {
+				w.Write(*b)
+				return
+			}
+			w.Write([]byte("[]"))
+			return
+		}
+		if m := curOne.Load(); m != nil {
+			if b, ok := (*m)[path.Base(req.URL.Path)]; ok {
+				w.Write(b)
+				return
+			}
+		}
+		http.Error(w, "{}", http.StatusNotFound)
+	}))
+	defer srv.Close()
+	pool := pcPeerPool()[60:68]
+	n := c.N(150, 6000)
+	for i := 0; i < n; i++ {
+		if !c.Mine(sub, i) {
+			continue
+		}
+		r := c.Rand(sub, i)
+		nsteps := 3 + r.Intn(6)
+		c.Cur(sub, i, fmt.Sprintf("steps=%d", nsteps))
+		curAll.Store(nil)
+		curOne.Store(nil)
+		src, err := pcache.NewHTTPSource(srv.URL+"/providers", nil)
+		if err != nil {
+			c.Fail(sub, i, "harness-http-source", err.Error(), nil)
+			continue
+		}
+		pc, err := pcache.New(pcache.WithSource(src), pcache.WithTTL(time.Hour), pcache.WithRefreshInterval(0), pcache.WithPreload(false))
+		if err != nil {
+			c.Fail(sub, i, "pcache-new", err.Error(), nil)
+			continue
+		}
+		best := map[peer.ID]int{}
+		type held struct {
+			pi   *model.ProviderInfo
+			json string
+			step int
+		}
+		var handed []held
+		var steps []string
+		wit := func() any { return map[string]any{"steps": steps} }
+		bad := false
+		for st := 0; st < nsteps && !bad; st++ {
+			// the server's next listing
+			var list []*model.ProviderInfo
+			one := map[string][]byte{}
+			var desc []string
+			for _, p := range pool {
+				if r.Intn(4) == 0 {
+					continue // not listed this time
+				}
+				v := 1 + r.Intn(9)
+				pi := &model.ProviderInfo{AddrInfo: peer.AddrInfo{ID: p}, Lag: v, LastAdvertisementTime: versionTime(v), LastError: fmt.Sprintf("step%d/v%d", st, v)}
+				list = append(list, pi)
+				b, _ := json.Marshal(pi)
+				one[p.String()] = b
+				desc = append(desc, fmt.Sprintf("%s=v%d", p.String()[len(p.String())-4:], v))
+			}
+			r.Shuffle(len(list), func(a, b int) { list[a], list[b] = list[b], list[a]; desc[a], desc[b] = desc[b], desc[a] })
+			body, _ := json.Marshal(list)
+			curAll.Store(&body)
+			curOne.Store(&one)
+			steps = append(steps, fmt.Sprintf("step %d listing: %s", st, strings.Join(desc, " ")))
+			if err := pc.Refresh(context.Background()); err != nil {
+				c.Fail(sub, i, "refresh-error", err.Error(), wit())
+				bad = true
+				break
+			}
+			for _, pi := range list {
+				if pi.Lag > best[pi.AddrInfo.ID] {
+					best[pi.AddrInfo.ID] = pi.Lag
+				}
+			}
+			listed := map[peer.ID]*model.ProviderInfo{}
+			for _, pi := range pc.List() {
+				if pi != nil {
+					listed[pi.AddrInfo.ID] = pi
+				}
+			}
+			for p, want := range best {
+				got, err := pc.Get(context.Background(), p)
+				if err != nil || got == nil || listed[p] == nil {
+					c.Fail(sub, i, "reported-provider-not-listed-after-refresh:http-source", fmt.Sprintf("step %d provider %s: err=%v", st, p, err), wit())
+					bad = true
+					break
+				}
+				if got.AddrInfo.ID != p || listed[p].AddrInfo.ID != p {
+					c.Fail(sub, i, "lookup-returns-another-providers-record:http-source", fmt.Sprintf("step %d: asked for %s, got %s", st, p, got.AddrInfo.ID), wit())
+					bad = true
+					break
+				}
+				if got.Lag != want || listed[p].Lag != want {
+					c.Fail(sub, i, "stale-record-after-refresh:http-source", fmt.Sprintf("step %d provider %s: lookup v%d, listing v%d, freshest seen v%d", st, p, got.Lag, listed[p].Lag, want), wit())
+					bad = true
+					break
+				}
+				b, _ := json.Marshal(got)
+				handed = append(handed, held{got, string(b), st})
+			}
+			// what was handed out earlier is still what it was
+			for _, h := range handed {
+				if b, _ := json.Marshal(h.pi); string(b) != h.json {
+					c.Fail(sub, i, "record-handed-out-earlier-changed:http-source", fmt.Sprintf("a record returned at step %d reads %s at step %d, it read %s", h.step, b, st, h.json), wit())
+					bad = true
+					break
+				}
+			}
+			c.Inc("http_source_refreshes")
+		}
+		c.Eval(nsteps)
+		c.Distinct(sub, fmt.Sprint(nsteps, len(best)))
+	}
 }
